@@ -271,6 +271,14 @@ def mutate(
     else:
         # No exception was caught, so write the output file(s)
 
+        # Serialize & encode before opening any file for writing: opening
+        # truncates, so a simfile that can't be serialized or encoded must
+        # fail here rather than after the input file has been emptied
+        output_data = str(simfile)
+        errors = kwargs.get("errors") or "strict"
+        output_data.encode(encoding, errors)
+        backup_data.encode(encoding, errors)
+
         # Write backup file if requested
         if backup_filename:
             with filesystem.open(
@@ -282,4 +290,4 @@ def mutate(
         with filesystem.open(
             output_filename or input_filename, "w", encoding=encoding, **kwargs
         ) as writer:
-            simfile.serialize(cast(TextIO, writer))
+            writer.write(output_data)
